@@ -343,7 +343,7 @@ impl Prop for C30 {
     fn budget(&self, tier: Tier) -> usize {
         match tier {
             Tier::Quick => 30_000,
-            Tier::Thorough => 1_000_000,
+            Tier::Thorough => 600_000,
             Tier::Search => 150_000,
         }
     }
